@@ -68,6 +68,12 @@ def _case(draw, knob):
     m["trailing_newline"] = trailing
     if not trailing and draw(st.integers(0, 2)) == 0:
         m["trailing_ws"] = draw(st.sampled_from(("    ", "\t", " ")))
+    if draw(st.integers(0, 4)) == 0:
+        # a bystander with positional-only parameters (and one with every other kind of parameter)
+        m["body"].insert(draw(st.integers(0, len(m["body"]))), {"k": "raw", "src": draw(st.sampled_from((
+            "def clamp(value, low=0, /, high=10):\n    return max(low, min(value, high))",
+            "def mix(a, /, b, *rest, c=1, **extra):\n    return (a, b, rest, c, extra)",
+            "async def fetch(url, /, *, timeout=3):\n    return url")))})
     if draw(st.integers(0, 3)) == 0:
         # an import whose imported (not bound) name is spelt like the target: `from legacy import TargetClass as _Legacy`
         nm = project.NAMES[target].split(".")[-1]
